@@ -86,18 +86,19 @@ def check_structure(expected_elems, n_insts, real_elems, stray):
 
 # ------------------------------------------------------------------------------------------------ chain stratum
 CHAIN_TMPL = (
-    '{% if wrap %}<div data-e="w" data-o="{{ cid }}">x{% if more %}{% component "chain" pat=rest / %}{% endif %}y</div>'
-    '{% else %}{% if more %}{% component "chain" pat=rest / %}{% else %}<span data-e="leaf" data-o="{{ cid }}">z</span>'
-    '{% endif %}{% endif %}'
+    '{% if wrap %}<div data-e="w" data-o="{{ cid }}">x{% if more %}{% for one in ones %}{% component "chain" pat=rest ones=ones / %}'
+    '{% endfor %}{% endif %}y</div>'
+    '{% else %}{% if more %}{% for one in ones %}{% component "chain" pat=rest ones=ones / %}{% endfor %}'
+    '{% else %}<span data-e="leaf" data-o="{{ cid }}">z</span>{% endif %}{% endif %}'
 )
 
 
 def build_chain_class():
     from django_components import Component, registry
 
-    def get_context_data(self, pat):
+    def get_context_data(self, pat, ones=(1,)):
         world.fault_point("gcd:chain")
-        return {"wrap": pat[0] == "w", "rest": pat[1:], "more": len(pat) > 1, "cid": self.id}
+        return {"wrap": pat[0] == "w", "rest": pat[1:], "more": len(pat) > 1, "cid": self.id, "ones": ones}
 
     cls = type("GenChain", (Component,), {"template": CHAIN_TMPL, "get_context_data": get_context_data,
                                          "__module__": "sim.generated"})
@@ -170,7 +171,7 @@ def run(ch, params, decoded=False):
     stats = {}
     if chain:
         mode = ["django", "isolated"][ch.draw(2, "mode")]
-        w = R.start_world(knobs, mode)
+        w = R.start_world(knobs, mode, unique_ids=True)
         stats["stratum:chain"] = 1
         dec = run_chain(ch, params, knobs, mode, w, stats, violations, decoded)
         res = world.registries_nonempty()
